@@ -970,6 +970,9 @@ def run(ctx):
             ctx.sample({"program": g[3], "transformation": TRANS_NAMES[c.tidx], "path": c.path, "first": c.lo,
                         "count": c.ln, "tree_after": c.res, "statically_safe": c.pysafe})
 
+    # ---- PSy-layer invokes (LFRic gen_code, GOcean lowering): names in the generated code, pairing of the calls
+    psy_cases = psy_layer_stage(ctx, prop_failures)
+
     # ---- names: the property (no duplicate unless the user asked) on the implementation's output
     for res, obs, text, tname, tgt, written, nm in names_cases:
         tags, _ = model_names(res)
@@ -1059,6 +1062,15 @@ def run(ctx):
             ctx.hist("auto_profile", a[1]["outcome"])
             if a[1]["outcome"] == "wrapped-UNBALANCED":
                 prop_failures.append(dict(a[1], what="automatic whole-routine profiling region is not balanced"))
+        # PSy-layer names vs Model.issue / lfric_file_names / gocean_file_names
+        ybad = ctx.coq_eval_failing(psy_cases["header"], "ycase", "ycheck", [c for c, _ in psy_cases["cases"]],
+                                    shard=400) if psy_cases["cases"] else []
+        for b in ybad[:3]:
+            r = psy_cases["cases"][b][1]
+            disagreements.append(("psy_layer_names", {k: r[k] for k in ("api", "file", "plan", "order", "auto", "reqs", "nodes")}
+                                  | {"observed": [e for e in r["events"] if e[1] == "E"]}, None, ""))
+        ctx.hist("psy_layer_model", "agree", len(psy_cases["cases"]) - len(ybad))
+        ctx.hist("psy_layer_model", "DISAGREE", len(ybad))
         ctx.cov["disagreements_checked"] = len(disagreements)
         ctx.log("model vs implementation: %d disagreeing cases pinpointed (groups where impl is only stricter: %d), names cases %d (bad %d), auto-profile %d (bad %d)"
                 % (len(disagreements), stricter, len(ncs), len(nbad), len(acs), len(abad)))
@@ -1122,7 +1134,7 @@ def run(ctx):
         first = None
         if disagreements:
             p, nm, c, text = disagreements[0]
-            if p in ("names", "auto_profile"):
+            if p in ("names", "auto_profile", "psy_layer_names"):
                 first = {"kind": p, "detail": nm}
             else:
                 shown = ctx.coq_eval_show(HEADER, ["apply_impl %s %s (mkTarget %s %d %d) %s" % (
@@ -1140,6 +1152,56 @@ def run(ctx):
                        "n_differing": len(disagreements),
                        "searched": "every accepted placement was executed on 3 stores; no unbalanced trace outside the known findings"},
                       no_input=True)
+
+
+def psy_layer_stage(ctx, prop_failures):
+    """PSy-layer part (props/C28/psylayer.py): fixed + random region plans on LFRic and GOcean algorithm files."""
+    from importlib import util as _u
+    from psyclone.configuration import Config
+    spec = _u.spec_from_file_location("c28_psylayer", HERE / "psylayer.py")
+    y = _u.module_from_spec(spec)
+    spec.loader.exec_module(y)
+    pl = y.PsyLayer(core.REPO)
+    rng = ctx.rng("psylayer")
+    saved_api = Config.get()._api          # pylint: disable=protected-access
+    cases = []
+    plans = [(a, f, pln, o, au, True) for a, f, pln, o, au in y.FIXED]
+    files = [("lfric", f) for f in y.LFRIC_FILES] + [("gocean", f) for f in y.GOCEAN_FILES]
+    try:
+        for k in range(ctx.pick(10, 120)):
+            api, f = files[k % len(files)] if k < len(files) else rng.choice(files)
+            pln, o, au = y.random_plan(rng, pl.create(api, f))
+            plans.append((api, f, pln, o, au, False))
+        for api, f, pln, o, au, fixed in plans:
+            try:
+                r = y.run_plan(pl, api, f, pln, o, au)
+            except Exception as e:          # code generation refused the combination: counted, not judged
+                ctx.hist("psy_layer_plan", "error:" + type(e).__name__)
+                continue
+            nreg = len(r["nodes"])
+            ctx.count(("psy", api, f, pln, o, au), nreg >= 2)
+            ctx.hist("psy_layer_plan", "%s:%s regions" % (api, nreg if nreg < 6 else "6+"))
+            ctx.hist("psy_layer_schemes", "+".join(sorted({n[2][0] for n in r["nodes"]})) or "none")
+            cases.append((y.coq_case(r), r))
+            rep = {"api": api, "algorithm_file": "src/psyclone/tests/test_files/%s/%s"
+                   % ("dynamo0p3" if api == "lfric" else "gocean1p0", f),
+                   "regions": [{"invoke": ii, "children": [lo, hi], "family": fam, "user_name": u}
+                               for ii, lo, hi, fam, u in pln],
+                   "application_order": o, "automatic_profiling": au,
+                   "PreStart_names_in_generated_code": [(e[0], e[3], e[4]) for e in r["events"] if e[1] == "E"],
+                   "replay": "PSyFactory(api, distributed_memory=False).create(parse(file)); PSyDataTrans._used_kernel_names={}; "
+                             "apply LFRicExtractTrans/GOceanExtractTrans (extract), ProfileTrans, NanTestTrans, ReadOnlyVerifyTrans to "
+                             "schedule.children[first:last] of the invoke in the given order; str(psy.gen)"}
+            for key, what, detail in y.judge(r):
+                if key:
+                    report_finding(ctx, key, what, dict(rep, detail=detail))
+                else:
+                    prop_failures.append(dict(rep, what="generated PSy layer: " + what,
+                                              calls=[e for e in r["events"]]))
+    finally:
+        Config.get()._api = saved_api      # pylint: disable=protected-access
+    ctx.log("PSy-layer plans run: %d" % len(cases))
+    return {"header": y.PSY_HEADER, "cases": cases}
 
 
 def auto_profile_case(impl, psy, prog):
